@@ -39,8 +39,19 @@ NEEDS = {
  'C19-revalidate-same-second-overwrites-input': 'validate a *_VALIDATED_<timestamp>.h5ad file again with output_dir = its own directory within the same clock second (two cooperating sites: name clean-up + "whatever is at the output path is mine")',
  'C04-transpose-skips-empty-worker-slices': 'parallel transposition with a worker count whose slice boundaries put a whole non-first slice inside a run of empty columns',
  'C04-refmarkers-merge-completion-order': 'reference markers with more chunks than workers and a later-launched worker finishing before an earlier one that is still running during submission (three cooperating edits)',
+ 'C02-aggregate-votes-reduceat-order': 'a node where some child has several leaves, every child\'s leaves are contiguous in sorted-leaf order, and the order of those blocks differs from the alphabetical order of the child names',
+ 'C05-csr-to-dense-scatter-index-dtype': 'CSC-encoded input with < 255 columns read in a single chunk of more than 256 rows (or < 65535 columns and > 65536 rows): the converted file stores indices in the smallest unsigned type',
+ 'C11-pmask-worker-indptr-skips': 'p-value-mask route, a leaf cluster with exactly one cell, and in the same worker chunk a scored pair before and after one of its pairs',
+ 'C12-per-slot-possible-mask': 'after thinning to the query genes a leaf pair with a < n markers in one direction, b > n in the other and a + b > n (n = the parent\'s effective per-direction target)',
+ 'C13-amalgamate-skips-empty-sources': 'amalgamation into a sparse destination where one source file contributes >= 1 rows with no stored entry while another source contributes stored entries',
+ 'C15-hdf5-runnerup-slab-direct-only': 'drop_level naming a level that is neither the first nor the leaf level, n_runners_up > 0 and a cell with an actual runner-up',
+ 'C16-clip-suffix-before-lookup': 'a known gene symbol that itself contains a "." (Tex19.1, AC149091.1) in the var index',
+ 'C17-drop-level-copies-dropped-markers': 'drop_level applied, a parent directly above the dropped level with exactly one child there (which has several children), and a marker table with no entry for that parent but one for the dropped child',
 }
 HISTORY = {
+ 'C05-csr-to-dense-scatter-index-dtype': 'OBSERVED MISS: the row-access matrices had at most 30 rows, so no read spanned the 2**8 index-width boundary of the CSC->CSR conversion. The generator now draws tall (257..520 rows; 65537+ rows in the thorough tier) and wide (257..300 columns) matrices read in one chunk; caught with 44 occurrences per quick run',
+ 'C16-clip-suffix-before-lookup': 'OBSERVED MISS: gene symbols were sampled from dot-free names only. The generator now has two modes that draw from the 44 known mouse symbols containing a "."; caught with 26 occurrences per quick run',
+ 'C15-hdf5-runnerup-slab-direct-only': 'caught as it stood (class hdf5-value); the IndexError the reader raises on some of these files surfaced as a harness error and is now its own violation class hdf5-unreadable',
  'C19-revalidate-same-second-overwrites-input': 'OBSERVED MISS: the first evaluation reported a violation, but for the wrong reason (a false alarm of the freshly added chained-validation operation, see DESIGN section 0); with that corrected the change was MISSED because two validations of one file in one history, the second one chained and in the same simulated second, were generated in about 1% of the histories. The chained re-validation is now self-contained (it first produces the product it then validates, inside one operation) and twice as frequent; caught with 29 occurrences per quick run',
  'C19-data-buffer-outside-workdir': 'predicted miss (the statistics driver never set copy_data_over); the option is now drawn in C19 statistics operations',
  'C19-cleanup-after-output': 'OBSERVED MISS by the first version of C19 (parent I/O faults only reached the first 12 write events and no invalid input was planted); C19 was strengthened (fault position drawn over ALL write events of the clean run; invalid-input failure classes for mapping) and now catches it',
